@@ -623,6 +623,7 @@ theorem gov_handleDoubleSign {s s1 : State} {a : Addr} {ih et pw : Int}
   split at h; · simp at h
   split at h; · simp at h
   split at h; · simp at h
+  split at h; · simp at h
   simp only at h
   split at h; · simp at h
   rename_i s2 h2
